@@ -1,1 +1,204 @@
 //! Verification hooks (conn); see `verif/mod.rs`.
+//!
+//! H-CONN-MAP: drive the connection's real `ResponseHandlerMap` (with its `StreamIdSet` and
+//! `OrphanageTracker`) from outside: allocate / orphan / lookup / into_handlers with real
+//! `oneshot` handlers whose receivers are handed to the caller, plus read-back of the four
+//! private collections.
+//!
+//! H-CONN-ROUTER: build the real `Connection::router` future, a request-sending handle over
+//! the real `RouterHandle::send_request`, and the connection error receiver over any
+//! `AsyncRead + AsyncWrite`, *without* spawning anything and without a socket.
+//!
+//! The items the hooks touch are private to `network::connection`; that module carries a
+//! `cfg(scylla_verif)` child module (`verif_seam`) implementing the object-safe traits declared
+//! here and two accessor functions on `Connection`. This file is the only public surface.
+
+use std::future::Future;
+use std::pin::Pin;
+use std::time::Duration;
+
+use tokio::io::{AsyncRead, AsyncWrite};
+
+use crate::network::Connection;
+use crate::network::WriteCoalescingDelay;
+
+/// What a caller of `RouterHandle::send_request` gets back verbatim from the router:
+/// the header parameters, the response opcode and the (still undecoded) frame body.
+#[derive(Debug, Clone, PartialEq, Eq)]
+pub struct RawResponse {
+    pub version: u8,
+    pub flags: u8,
+    pub stream: i16,
+    pub opcode: u8,
+    pub body: Vec<u8>,
+}
+
+/// Classification of the driver-internal request error (the full text is in `text`).
+#[derive(Debug, Clone, PartialEq, Eq)]
+pub enum SendErrorKind {
+    UnableToAllocStreamId,
+    BrokenConnection,
+    Serialization,
+    Other,
+}
+
+#[derive(Debug, Clone, PartialEq, Eq)]
+pub struct SendError {
+    pub kind: SendErrorKind,
+    pub text: String,
+}
+
+/// State of the receiving end of a handler's `oneshot` channel.
+#[derive(Debug, Clone, PartialEq, Eq)]
+pub enum RxPoll {
+    /// nothing sent yet, sender alive
+    Empty,
+    /// sender dropped without sending
+    Closed,
+    Response(RawResponse),
+    Error(SendError),
+    /// the value was already taken by an earlier poll
+    Taken,
+}
+
+/// Receiving end of one handler (the real `oneshot::Receiver` stays inside).
+pub trait HandlerRxOps {
+    /// `try_recv` on the real receiver.
+    fn poll(&mut self) -> RxPoll;
+}
+pub type HandlerRx = Box<dyn HandlerRxOps>;
+
+/// A handler taken out of the map (by `lookup` or `into_handlers`): the real `ResponseHandler`.
+pub trait HandlerTxOps {
+    fn request_id(&self) -> u64;
+    /// What the reader does with a response: `response_sender.send(Ok(response))`.
+    /// Returns false when the receiver is gone.
+    fn send_response(self: Box<Self>, response: RawResponse) -> bool;
+    /// What the router does when the connection breaks:
+    /// `response_sender.send(Err(broken_connection_error.into()))`. Returns false when the receiver is gone.
+    fn send_broken(self: Box<Self>) -> bool;
+}
+pub type HandlerTx = Box<dyn HandlerTxOps>;
+
+pub enum AllocOutcome {
+    Stream(i16, HandlerRx),
+    /// `allocate` returned the handler back (no free id); `returned_request_id` is the id of
+    /// the handler that came back.
+    Refused {
+        returned_request_id: u64,
+        rx: HandlerRx,
+        tx: HandlerTx,
+    },
+}
+
+pub enum LookupOutcome {
+    Orphaned,
+    Handler(HandlerTx),
+    Missing,
+}
+
+/// Read-back of the private collections (everything sorted ascending).
+#[derive(Debug, Clone, PartialEq, Eq, Default)]
+pub struct MapSnapshot {
+    /// number of bits set in the stream-id bitmap
+    pub allocated_count: usize,
+    /// the ids whose bit is set, if `allocated_count <= listing_limit`, else empty
+    pub allocated: Vec<i16>,
+    /// the ids whose bit is clear, if their number is `<= listing_limit`, else empty
+    pub free: Vec<i16>,
+    /// (stream id, request id of the stored handler)
+    pub handlers: Vec<(i16, u64)>,
+    /// (request id, stream id)
+    pub request_to_stream: Vec<(u64, i16)>,
+    /// keys of the orphanage tracker's map
+    pub orphans: Vec<i16>,
+    /// stream ids of the orphanage tracker's time-ordered set (sorted by id here)
+    pub orphans_by_time: Vec<i16>,
+    /// entries of `handlers` / `request_to_stream` whose request id is `>= hide_from`: counted, not listed
+    pub hidden_handlers: usize,
+    pub hidden_request_to_stream: usize,
+}
+
+/// The receivers of the handlers created by `prefill`.
+pub trait PrefillOps {
+    fn len(&self) -> usize;
+    fn stream(&self, i: usize) -> i16;
+    fn request_id(&self, i: usize) -> u64;
+    fn poll(&mut self, i: usize) -> RxPoll;
+}
+
+/// The real `ResponseHandlerMap`.
+pub trait MapOps {
+    /// Real `allocate` with a fresh real handler for `request_id`.
+    fn allocate(&mut self, request_id: u64) -> AllocOutcome;
+    /// Real `orphan`.
+    fn orphan(&mut self, request_id: u64);
+    /// Real `lookup`.
+    fn lookup(&mut self, stream_id: i16) -> LookupOutcome;
+    /// Real `into_handlers`; (stream id, handler), sorted by stream id.
+    fn into_handlers(self: Box<Self>) -> Vec<(i16, HandlerTx)>;
+    /// Real `old_orphans_count`.
+    fn old_orphans_count(&self) -> usize;
+    /// `hide_from`: entries of request ids `>= hide_from` (pre-filled background) are only counted.
+    fn snapshot(&self, listing_limit: usize, hide_from: u64) -> MapSnapshot;
+    /// `n` real `allocate` calls with request ids `first_request_id..`; stops at the first refusal.
+    fn prefill(&mut self, n: usize, first_request_id: u64) -> Box<dyn PrefillOps>;
+}
+
+/// H-CONN-MAP: a fresh real `ResponseHandlerMap`.
+pub fn new_map() -> Box<dyn MapOps> {
+    Connection::verif_new_map()
+}
+
+/// Router configuration: the fields of the host connection config the router reads.
+#[derive(Clone, Debug, Default)]
+pub struct RouterCfg {
+    pub write_coalescing_delay: Option<WriteCoalescingDelay>,
+    pub keepalive_interval: Option<Duration>,
+    pub keepalive_timeout: Option<Duration>,
+    /// capacity of the submit channel (`Connection::new` uses 1024); 0 = 1024
+    pub submit_channel_capacity: usize,
+    /// number of real `allocate` calls made on the router's own handler map before the router's
+    /// first poll (their handlers stay parked; see `RouterHandleOps::prefilled`)
+    pub prefill: usize,
+}
+
+pub type SendFuture = Pin<Box<dyn Future<Output = Result<RawResponse, SendError>>>>;
+
+/// The real `RouterHandle` (request ids, submit channel, orphan notifications, keepalive hint).
+pub trait RouterHandleOps {
+    /// A future running the real `RouterHandle::send_request` for a request with this opcode
+    /// (OPTIONS 0x05, QUERY 0x07, PREPARE 0x09, EXECUTE 0x0A, BATCH 0x0D, REGISTER 0x0B) whose
+    /// serialised body is `body` verbatim. Dropping the future is caller-side cancellation.
+    fn send_raw(&self, opcode: u8, body: Vec<u8>) -> SendFuture;
+    /// `keepalive_hint.notify_one()` (what `Connection::trigger_keepalive` does).
+    fn trigger_keepalive(&self);
+    /// the next request id the handle would hand out
+    fn next_request_id(&self) -> u64;
+    /// state of the i-th prefilled handler's receiver (None before the router's first poll / out of range)
+    fn prefilled(&self, i: usize) -> Option<(i16, RxPoll)>;
+    fn clone_handle(&self) -> RouterHandle;
+}
+pub type RouterHandle = Box<dyn RouterHandleOps>;
+
+/// The connection error receiver handed to the pool (`ErrorReceiver`).
+pub trait ErrorRxOps {
+    /// `try_recv`: Ok(Some(text)) = an error was sent; Ok(None) = nothing yet; Err(()) = sender dropped silently.
+    fn poll(&mut self) -> Result<Option<String>, ()>;
+}
+
+pub struct RouterParts {
+    /// the real `Connection::router(..)` future; poll it yourself
+    pub router: Pin<Box<dyn Future<Output = ()>>>,
+    pub handle: RouterHandle,
+    pub errors: Box<dyn ErrorRxOps>,
+}
+
+/// H-CONN-ROUTER: the channels and the `RouterHandle` are made exactly as `Connection::new` makes
+/// them; the router future is `Connection::router` itself, not spawned.
+pub fn build_router<S>(stream: S, cfg: RouterCfg) -> RouterParts
+where
+    S: AsyncRead + AsyncWrite + 'static,
+{
+    Connection::verif_build_router(stream, cfg)
+}
